@@ -618,7 +618,7 @@ def run(chk, args):
         import concurrent.futures
         gen, desc = exhaustive_chunks(rng, 500000)
         for k, v in desc.items():
-            chk.coverage.setdefault("exhaustive", {})[k] = v
+            chk.coverage.setdefault("exhaustive_small_domain", {})[k] = v
         n_ex = [0]
 
         def work(chunk):
@@ -715,6 +715,6 @@ def run(chk, args):
         "values); every 25th case has a sink on a dead chip (not judged). ner_net alone on fault-free meshes and tori "
         "with duplicated destinations. corpus/C03.json (inputs on which the code as found attached a chip twice) first. "
         "thorough: + machines <= 3x3 with <= 3 dead directed links and <= 1 dead chip x all source / sink placements with "
-        "fan-out <= 2 x radius {0,20}: complete for the sizes listed as complete under coverage.exhaustive, dead-link "
+        "fan-out <= 2 x radius {0,20}: complete for the sizes listed as complete under coverage.exhaustive_small_domain, dead-link "
         "sets sampled uniformly for the others; the oracle judges every case, Coq every 50th. non-trivial = valid case "
         "with at least one sink; distinct by hash of the whole case")
